@@ -293,8 +293,16 @@ func c16Run(t *testing.T, c c16Case) (kind, what string) {
 					}
 					if !c.passes(k) || vanished || !inFile {
 						if got != nil && !(c.Pre == k.Name) {
-							if !c.passes(k) {
+							switch {
+							case !c.passes(k):
 								bad("filtered-key-copied", fmt.Sprintf("key %s of db %d is excluded by filter %s but exists on the target", k.Name, k.DB, c.Filter))
+							case c.Vanish == id+"@dump" && inFile:
+								// DUMP answered nil: there is nothing that could have been copied
+								bad("vanished-key-copied", fmt.Sprintf("key %s of db %d vanished before its DUMP but exists on the target as %s", k.Name, k.DB, got.Canon()))
+							case c.Vanish == id+"@pttl" && inFile && k.TTL > 0 && got.ExpireAt == 0:
+								// dumped, then gone when PTTL was asked (-2): copying the dumped value is
+								// defensible, but an expiring key must not become a persistent one
+								bad("expired-key-made-persistent", fmt.Sprintf("key %s of db %d (expiring on the source) was gone when its PTTL was asked and now exists on the target without expiry", k.Name, k.DB))
 							}
 						}
 						continue
